@@ -60,6 +60,9 @@ def gen(rng, tier):
     # as called by code running in a worker): drawn last so that the request
     # streams of earlier seeds stay what they were
     for r in reqs:
+        if rng.random() < 0.4:
+            r['no_env'] = True           # request without own environment
+    for r in reqs:
         if r['mode'] not in ('executable', 'meth') and rng.random() < 0.2:
             r['via'] = 'service'
             r['cores'], r['gpus'] = 1, 0
@@ -124,8 +127,9 @@ def attach_payloads(worker):
 
 def make_descr(i, r):
     uid = 'req.%04d' % i
-    d = {'uid': uid, 'raptor_id': MASTER, 'ranks': 1, 'cores_per_rank': 1,
-         'environment': {'C20_REQ': uid}}
+    d = {'uid': uid, 'raptor_id': MASTER, 'ranks': 1, 'cores_per_rank': 1}
+    if not r.get('no_env'):
+        d['environment'] = {'C20_REQ': uid}
     mode = r['mode']
     if mode in ('func', 'meth'):
         d['mode'] = rp.TASK_FUNCTION if mode == 'func' else rp.TASK_METHOD
@@ -438,6 +442,52 @@ def run(seed, scenario, trace=None, tier='quick'):
                 st['proc_uid'][sim.cur_proc().pid] = task['uid']
                 return real_dispatch(self, task, env)
             cls._dispatch = _dispatch
+
+            # os.environ / sys.stdout before and after each dispatch, in the
+            # process which runs the dispatcher (matters for workers which
+            # serve several requests in one process)
+            import radical.pilot.raptor.worker as wmod
+            import asyncio as _asyncio
+            base = wmod.Worker
+            if not getattr(base, '_dst_disp', None):
+                base._dst_disp = {n: getattr(base, n) for n in (
+                    '_dispatch_func', '_dispatch_meth', '_dispatch_eval',
+                    '_dispatch_exec', '_dispatch_proc', '_dispatch_shell')}
+
+            def observe(name, real):
+                def before():
+                    return (dict(wmod.os.environ), _rsys.stdout, _rsys.stderr)
+
+                def after(task, b):
+                    mode = name.replace('_dispatch_', '')
+                    env_now = dict(wmod.os.environ)
+                    if env_now != b[0]:
+                        sim.violation(PROP, 'env_leak', 'dispatch:%s' % mode,
+                                      {'uid': task['uid'], 'diff': sorted(
+                                          set(env_now.items()) ^
+                                          set(b[0].items()))[:6]})
+                    if _rsys.stdout is not b[1] or _rsys.stderr is not b[2]:
+                        sim.violation(PROP, 'stdio_leak',
+                                      'dispatch:%s' % mode,
+                                      {'uid': task['uid']})
+                if _asyncio.iscoroutinefunction(real):
+                    async def wrapped(self, task):
+                        b = before()
+                        try:
+                            return await real(self, task)
+                        finally:
+                            after(task, b)
+                else:
+                    def wrapped(self, task):
+                        b = before()
+                        try:
+                            return real(self, task)
+                        finally:
+                            after(task, b)
+                wrapped.__name__ = name
+                return wrapped
+            for name, real in base._dst_disp.items():
+                setattr(base, name, observe(name, real))
 
             def alloc(self, task):
                 ok = real_alloc(self, task)
